@@ -73,6 +73,17 @@ RULE["C05"] += "; every 10th case is a feasible-specialist model (class 1: one s
 RULE["C10"] += "; every 8th case runs the in-step monitor over a BACKWARD run (both flags, due-time padding tasks), judged by the flag the caller passed"
 RULE["C12"] += "; the values are also checked at every observer phase 'updated' (whether or not update_PERT_data was called in that update); every 12th case pauses an FS network with an absence list, removes / inserts absence steps in the paused logs (the clock moves) and resumes"
 RULE["C20"] += "; half of the tasks are constructed with file_path, and every 4th case sends the configured parent project through write_simple_json / read_simple_json (result file still present) before it runs"
+for _p in ("C01", "C02", "C03", "C04", "C06", "C07", "C13", "C14"):
+    RULE[_p] += ("; further variants: history (2-4 operations of different kinds - runs, backward runs, pauses, resumes, appended runs, reloads, "
+                 "model edits, absence edits - then the monitored run), model edits before the appended run of keeplog, reload into the SAME project object "
+                 "in 40 % of the JSON resumes; in-place edits include structural ones (new worker, team targets added / removed, conveyor inputs re-assigned, "
+                 "new dependencies, a first task for an empty component)")
+RULE["C05"] += "; every 20th case lets the only eligible worker join his team at a pause (feasible from then on)"
+RULE["C11"] += "; every 8th case is paused, edited in place (incl. a task that a team targets only from the pause on) and resumed under one monitor"
+RULE["C16"] += "; stage 'history' = any 2-4 operations before the file is written"
+RULE["C17"] += "; every 6th case has an earlier backward run followed by a reload into the same object or by replaced list objects before the examined run"
+RULE["C18"] += "; 12 % of the logs come from two calls with different absence lists (pause + resume, run + appended run), 15 % of the projects were read from a file before the edits"
+RULE["C20"] += "; every third case configured the SAME task before from an earlier result that stood at the same path"
 _SCALE = ("; 5-8 % of the cases are models BEYOND the usual sizes (gen_scale: runs of 100-1500 steps with absence blocks of up to 140 consecutive steps, "
           "fan-in of up to 299, 33-70 tasks on one component, finish-gated chains of 11-40 tasks, teams of 100 workers, 10-14 teams with numeric IDs, "
           "17-26 components in one workplace)")
